@@ -611,7 +611,7 @@ pub fn run_c19(tier: &str) -> Outcome {
     let mut o = run_hx_prop("C19", tier);
     let (acc, rule) = crate::gen::graphgen::run("C19", tier);
     if let serde_json::Value::Object(m) = &mut o.coverage {
-        m.insert("graphgen".into(), json!({"rule": rule, "evaluations": acc.evaluations, "graphs": acc.nontrivial, "samples": acc.samples, "failing_cases": acc.fail_total}));
+        m.insert("graphgen".into(), json!({"rule": rule, "evaluations": acc.evaluations, "graphs": acc.nontrivial, "samples": acc.samples, "counters": acc.counters, "failing_cases": acc.fail_total}));
         let t = m["traces_validated_against_impl"].as_u64().unwrap_or(0) + acc.evaluations;
         m.insert("traces_validated_against_impl".into(), json!(t));
     }
